@@ -54,7 +54,7 @@ CLAIMED = {
          "A-REAL: float64 is real arithmetic, math.Exp/Log/Exp2/Log2/Pow are uninterpreted with trusted textbook axioms (prelude/math.spec, listed in the evidence); the '+-k ulps' clause is not decided. TRUSTED for the linear and cubic mappings (not proved): approximateLog/approximateInverseLog are bit-level functions outside the real model - their being monotone mutual inverses within 1 of log2 with bounded growth is assumed (axioms LinA*/CubA*), so a change inside those two functions or in bit_operation_helper.go is NOT detected; 'reported accuracy equals the one built with' is proved for the logarithmic mapping only (the interpolated constructors use rounded constants). Mappings whose indexable range is empty (absurd offsets) are outside the contract (DESIGN F9).",
          "DESIGN 4 C03"),
  "C04": ("Dense and sparse stores: every operation (Add*, AddBin, TotalCount, IsEmpty, Min/MaxIndex, KeyAtRank, ForEach, MergeWith from any store kind, Copy, Clear, Reweight, decoding, Encode) has a whole-content postcondition over the abstract index->weight map, proved for all inputs, and refines the Store interface contract. Buffered-paginated store: verified on its own abstraction (weight of k = page line + occurrences in the buffer): constructor, Add, AddWithCount, AddBin, Clear, Copy (no shared storage), Reweight (pages and buffered entries), MergeWith (same-kind page-wise path and the generic ForEach path; the argument is unchanged), TotalCount, IsEmpty, both native decoders (success only if exactly the declared number of bins was read: genuine defect found and fixed) and Encode (content-preserving).",
-         "Buffered-paginated store: page() and compact() are TRUSTED (page-table growth and buffer-to-page moves: contracts assumed, bodies not verified); MinIndex, MaxIndex, KeyAtRank, minIndexWithCumulCount, ForEach, Bins, ToProto/EncodeProto/MergeWithProto are NOT under contract, and the store is not part of the interface invariant, so sketch-level contracts do not cover sketches built on it. SparseStore.KeyAtRank: body verified for frame and safety, its two functional postconditions assumed (sort.Slice enumeration trusted). Bins() (goroutines) is outside the subset for every store. A-REAL for weights; TotalCount of the paginated store is proved equal to buffer length + double sum of page lines, the link of that sum to the abstract map is not proved.",
+         "Buffered-paginated store: page() and compact() are TRUSTED (page-table growth and buffer-to-page moves: contracts assumed, bodies not verified); MinIndex, MaxIndex, KeyAtRank, minIndexWithCumulCount and ForEach are verified only for bounds, absence of panics, purity (content unchanged; MinIndex/MaxIndex change nothing) and - ForEach - never calling f again after it asked to stop: WHICH index or pairs they produce is not specified for this store; Bins, ToProto/EncodeProto/MergeWithProto are not under contract; the store is not part of the interface invariant, so sketch-level contracts do not cover sketches built on it. SparseStore.KeyAtRank: body verified for frame and safety, its two functional postconditions assumed (sort.Slice enumeration trusted). Bins() (goroutines) is outside the subset for every store. A-REAL for weights; TotalCount of the paginated store is proved equal to buffer length + double sum of page lines, the link of that sum to the abstract map is not proved.",
          "DESIGN 4 C04"),
  "C19": ("Proved for all three kinds: Equals decides exactly 'same kind, base and offset within a relative 1e-12' (float64 constant), is reflexive and symmetric on valid mappings, false across kinds and false when bases differ by a relative 1e-11 or more; constructors store exactly the base and offset given; Encode writes the kind flag, then the IEEE little-endian bytes of the base, then of the offset (byte-level postcondition); Decode consumes exactly 17 bytes, dispatches on the flag and calls the same constructor; ToProto records kind/base/offset and FromProto rebuilds from exactly those; float64LE round trip is bit-exact (C18).",
          "The composition decode(encode(m)) equal to m is not one machine-checked lemma: it follows from the byte-level Encode postcondition, the bit-exact float64LE lemma of C18 and the Decode contract, with the real<->IEEE change of representation treated as uninterpreted (A-REAL bridge). The streaming protobuf writer (EncodeProto, generated builder code) is not under contract (see C09). 'Clearly different accuracies are never equal' is proved as a statement about bases (gamma), not alphas.",
